@@ -34,6 +34,7 @@ MaxArgs(f) == IF FnSig[f][2] = 99 THEN 3 ELSE FnSig[f][2]
 FnSeeds == {f \o "(" \o ArgList(FnSig[f][1]) \o ")" : f \in DOMAIN FnSig}
            \cup {"x[" \o f \o "(" \o ArgList(MaxArgs(f)) \o ") = 1]" : f \in DOMAIN FnSig}
 AxisSeeds == {ax \o "::a[1]/b" : ax \in Axes} \cup {"x/" \o ax \o "::*[b]" : ax \in Axes}
+             \cup {"count(//a[b/" \o ax \o "::c]) > 0" : ax \in Axes}
 OpSeeds == {"a[b " \o o \o " c]" : o \in {"or", "and", "=", "!=", "<", "<=", ">", ">=", "+", "-", "*", "div", "mod", "|"}}
            \cup {"count(a " \o o \o " 1) " \o o2 \o " 'x'" : o \in {"+", "|", "div"}, o2 \in {"=", "and", "-"}}
 AllSeeds == Seeds \o SetToSeq(FnSeeds \cup AxisSeeds \cup OpSeeds)
@@ -42,7 +43,9 @@ VARIABLES si, op, pos, toks
 vars == <<si, op, pos, toks>>
 
 DamageOps == {"cut-after", "cut-in-quote", "delete-closer", "delete-quote", "rename-function", "drop-args", "drop-last-arg", "unknown-axis",
-              "bad-qname-1", "bad-qname-2", "bad-qname-3"}
+              "bad-qname-1", "bad-qname-2", "bad-qname-3",
+              \* near misses: a name one character away from a known axis / function name
+              "axis-plus-s", "axis-minus-1", "axis-capital", "function-plus-s", "function-minus-1"}
 
 Init == si = 0 /\ op = "" /\ pos = 0 /\ toks = <<>>
 Next ==
@@ -82,6 +85,13 @@ MatchParenFrom(ts, p, c) == MatchParen(ts, p, 0)
 RECURSIVE JoinLex(_)
 JoinLex(ts) == IF ts = <<>> THEN "" ELSE Head(ts).s \o JoinLex(Tail(ts))
 
+Capital == [a \in {"ancestor", "ancestor-or-self", "attribute", "child", "descendant", "descendant-or-self", "following",
+                     "following-sibling", "parent", "preceding", "preceding-sibling", "self", "namespace"} |->
+               CASE a = "ancestor" -> "Ancestor" [] a = "ancestor-or-self" -> "Ancestor-or-self" [] a = "attribute" -> "Attribute"
+                 [] a = "child" -> "Child" [] a = "descendant" -> "Descendant" [] a = "descendant-or-self" -> "descendant-or-Self"
+                 [] a = "following" -> "Following" [] a = "following-sibling" -> "following-Sibling" [] a = "parent" -> "PARENT"
+                 [] a = "preceding" -> "Preceding" [] a = "preceding-sibling" -> "Preceding-sibling" [] a = "self" -> "Self"
+                 [] a = "namespace" -> "Namespace"]
 NoDamage == <<>>
 Damaged ==
     LET ts == Toks  t == ts[pos] IN
@@ -116,6 +126,18 @@ Damaged ==
            ELSE NoDamage
       [] op = "unknown-axis" ->
            IF t.k = "name" /\ pos < Len(ts) /\ IsSym(ts[pos + 1], "::") THEN [ts EXCEPT ![pos] = TName("bogus")] ELSE NoDamage
+      [] op = "axis-plus-s" ->
+           IF t.k = "name" /\ pos < Len(ts) /\ IsSym(ts[pos + 1], "::") THEN [ts EXCEPT ![pos] = TName(t.s \o "s")] ELSE NoDamage
+      [] op = "axis-minus-1" ->
+           IF t.k = "name" /\ pos < Len(ts) /\ IsSym(ts[pos + 1], "::") /\ Len(t.s) > 2 THEN [ts EXCEPT ![pos] = TName(SubSeq(t.s, 1, Len(t.s) - 1))] ELSE NoDamage
+      [] op = "axis-capital" ->
+           IF t.k = "name" /\ pos < Len(ts) /\ IsSym(ts[pos + 1], "::") /\ t.s \in DOMAIN Capital THEN [ts EXCEPT ![pos] = TName(Capital[t.s])] ELSE NoDamage
+      [] op = "function-plus-s" ->
+           IF t.k = "name" /\ pos < Len(ts) /\ IsSym(ts[pos + 1], "(") /\ t.s \notin NodeTypeNames
+           THEN [ts EXCEPT ![pos] = TName(t.s \o "s")] ELSE NoDamage
+      [] op = "function-minus-1" ->
+           IF t.k = "name" /\ pos < Len(ts) /\ IsSym(ts[pos + 1], "(") /\ t.s \notin NodeTypeNames /\ Len(t.s) > 2
+           THEN [ts EXCEPT ![pos] = TName(SubSeq(t.s, 1, Len(t.s) - 1))] ELSE NoDamage
       [] op = "bad-qname-1" ->    \* "p:" followed by nothing name-like
            IF t.k = "name" /\ ~(pos < Len(ts) /\ IsSym(ts[pos + 1], "::")) /\ ~(pos < Len(ts) /\ IsSym(ts[pos + 1], "("))
            THEN [ts EXCEPT ![pos] = TBad(t.s \o ":")] ELSE NoDamage
